@@ -53,6 +53,9 @@ CHECKS = {
  "C12": dict(level="model_checking", technique="exhaustive enumeration of set_preference/get_preference histories (every name x value, every same-name value pair, all pairs/triples over a core, each accepted setting followed by a call series) in fresh sessions against a last-writer-wins reference model with a kind table",
              text="Kind table (boolean/number/string) read from prefs.yaml and the defaults in prefs.rs; the model says accept / reject / either for each write and what it must read back as. After every history the complete preference snapshot is compared with the model: accepted writes read back normalised, rejected writes are errors that change nothing, no other preference moves, and a series of set_mathml / speech / braille / navigation / cursor-routing calls (in and out of range) leaves every preference as set. Independence: speech-only, braille-only and navigation preferences do not change the other outputs.",
              note="A string preference accepts any string; non-member strings for file-selecting preferences may be accepted or refused. Language/DecimalSeparator legitimately rewrite the derived separator preferences.", design="§4 C12", engine="E2"),
+ "C20": dict(level="model_checking", technique="exhaustive enumeration of query histories per (expression, braille code, highlight style): every node id, every cell index incl. out-of-range, after navigation commands, with state snapshots after every query",
+             text="One long history per (expression, code, style): get_braille for each node id / unknown id / '', node-from-braille for cells 0..35, 200, 9999, usize::MAX, set_navigation_node + get_braille_position + get_braille per id, and the queries again after 6 navigation commands. After every query the highlight preference and navigation position are re-read (every 6th also speech, braille, overview) and must be unchanged; positions must lie inside the braille; returned ids must belong to the expression; style Off / unknown id must give exactly the plain braille. Includes an expression whose braille fails (purity on the error path).",
+             note="Highlighted braille that differs from the plain braille in more than dots 7-8 is counted, not judged (the statement makes no claim).", design="§4 C20", engine="E2"),
 }
 PENDING = {}
 
